@@ -482,15 +482,71 @@ def run(repo: Repo, rep, tier: str):
     if len(sim_calls) != 1:
         raise AnalysisError("_isolated_backtest: simulator() call not found exactly once")
     a0 = sim_calls[0].args[0] if sim_calls[0].args else None
+
+    def values_of(expr, seen=None):
+        """the expression with local names replaced (transitively) by what they are assigned"""
+        seen = set() if seen is None else seen
+        out = [expr]
+        for n in ast.walk(expr):
+            if isinstance(n, ast.Name) and isinstance(n.ctx, ast.Load) and n.id in assigns and n.id not in params and n.id not in seen:
+                seen.add(n.id)
+                for v in assigns[n.id]:
+                    out += values_of(v, seen)
+        return out
+
+    def raw_values_of_param(expr, pname):
+        """places where the VALUES of the parameter (not only its keys) flow: anything but `for k in p`, `k in p`, sorted(p) / len(p)
+        / list(p), and a deep copy"""
+        bad = []
+        parents = {}
+        for n in ast.walk(expr):
+            for c in ast.iter_child_nodes(n):
+                parents[id(c)] = n
+        for n in ast.walk(expr):
+            if isinstance(n, ast.Name) and n.id == pname and isinstance(n.ctx, ast.Load):
+                par = parents.get(id(n))
+                keys_only = (isinstance(par, ast.comprehension) and par.iter is n) or (isinstance(par, ast.For) and par.iter is n) or \
+                    (isinstance(par, ast.Compare) and n in par.comparators and all(isinstance(o, (ast.In, ast.NotIn)) for o in par.ops)) or \
+                    (isinstance(par, ast.Call) and norm(par.func) in ("sorted", "len", "list", "set", "copy.deepcopy", "deepcopy") and n in par.args)
+                if not keys_only:
+                    bad.append(norm(par) if par is not None else pname)
+        return bad
     ok = False
-    if isinstance(a0, ast.Name):
-        ok = any(is_deepcopy_of(v, "candles") for v in assigns.get(a0.id, []))
-    elif a0 is not None:
-        ok = is_deepcopy_of(a0, "candles")
+    if a0 is not None:
+        vals = values_of(a0)
+        deep = any(is_deepcopy_of(v, "candles") for v in vals)
+        leaks = [b for v in vals for b in raw_values_of_param(v, "candles")]
+        ok = deep and not leaks
     if not ok:
         rep.violation(rid2, "candles-deepcopy", f"the simulator receives `{norm(a0) if a0 is not None else None}`, which is not a deep copy of the `candles` argument: "
                                                 f"the simulators edit 1m candles in place (gap normalisation), so the caller's arrays are modified")
     rep.instance(rid2, "simulator-arg", {"arg": norm(a0) if a0 is not None else None})
+    # ------------------------------------------------------------------ order of the symbols
+    rid6 = "C11-R6"
+    rep.rule(rid6, "two `candles` dicts that are equal give the same result: the simulators replay the symbols in the order of the dict they "
+                   "are handed, so that dict must not inherit the insertion order of the caller's dict (a plain copy does) - it is built "
+                   "by iterating over something else (the routes / the configuration / sorted keys)")
+    if isinstance(a0, ast.Name):
+        direct = [v for v in assigns.get(a0.id, [])]
+        inherits = []
+        for v in direct:
+            if is_deepcopy_of(v, "candles") or (isinstance(v, ast.Call) and norm(v.func) in ("dict", "copy.copy") and v.args and norm(v.args[0]) == "candles") \
+                    or (isinstance(v, ast.Name) and v.id == "candles"):
+                inherits.append(norm(v))
+            elif isinstance(v, ast.DictComp):
+                it0 = v.generators[0].iter
+                src = norm(it0)
+                # iterating the caller's dict (or a copy of it) keeps its insertion order
+                base = it0
+                while isinstance(base, ast.Call) and isinstance(base.func, ast.Attribute) and base.func.attr in ("items", "keys", "values"):
+                    base = base.func.value
+                if isinstance(base, ast.Name) and (base.id == "candles" or any(is_deepcopy_of(x, "candles") for x in assigns.get(base.id, []))):
+                    inherits.append(f"{{... for ... in {src}}}")
+        if inherits:
+            rep.violation(rid6, "symbol-order", f"the simulator receives `{a0.id}` = {inherits[0]}: the symbols are replayed in the insertion order of the caller's `candles` dict, so two "
+                                                f"equal dicts built in a different order give different results (fills of the symbols reach a shared wallet in another order)")
+        rep.instance(rid6, "simulator-arg-order", {"arg": a0.id, "built_from": [norm(v)[:80] for v in direct]})
+    rep.floor(rid6, 1)
     inj = [c for c in ast.walk(fn) if isinstance(c, ast.Call) and SL.last(dotted(c.func)) == "inject_warmup_candles_to_store"]
     for c in inj:
         base = c.args[0]
